@@ -4,6 +4,7 @@ The simulator gives the OS's answers, so it holds the answer sheet. Three campai
   mode     exhaustive: all 4096 permission values x 7 file types (cases 0..6, in both tiers)
   meta     overlaid lstat answers (size/uid/gid/nlink/blocks/inode/mtime, ids with and without a name), link's own attributes
   content  digests / line counts / shebang / contains under simulated read chunking and short reads
+  xattr    has_xattrs / capabilities: case 7 enumerates each of the 41 capabilities x {e,-} x {p,i,ip}; random capability sets otherwise
 """
 import copy
 import datetime
@@ -28,6 +29,29 @@ PERMS = ["user_read", "user_write", "user_exec", "user_all", "group_read", "grou
          "other_read", "other_write", "other_exec", "other_all", "suid", "sgid"]
 CONTENT_COLS = ["sha1", "sha256", "sha512", "sha3", "line_count", "is_shebang"]
 SIZES = [0, 1, 2, 3, 100, 8191, 8192, 8193, 32767, 32768, 32769, 65535, 65536, 65537, 100000]
+# linux/capability.h, bit 0..40
+CAPS = ["chown", "dac_override", "dac_read_search", "fowner", "fsetid", "kill", "setgid", "setuid", "setpcap", "linux_immutable", "net_bind_service",
+        "net_broadcast", "net_admin", "net_raw", "ipc_lock", "ipc_owner", "sys_module", "sys_rawio", "sys_chroot", "sys_ptrace", "sys_pacct", "sys_admin",
+        "sys_boot", "sys_nice", "sys_resource", "sys_time", "sys_tty_config", "mknod", "lease", "audit_write", "audit_control", "setfcap", "mac_override",
+        "mac_admin", "syslog", "wake_alarm", "block_suspend", "audit_read", "perfmon", "bpf", "checkpoint_restore"]
+
+
+def cap_blob(eff, permitted, inheritable):
+    """VFS_CAP_REVISION_2 value of security.capability as the latin-1 text the world model stores."""
+    import struct
+    p = sum(1 << b for b in permitted)
+    i = sum(1 << b for b in inheritable)
+    return struct.pack("<IIIII", 0x02000000 | (1 if eff else 0), p & 0xffffffff, i & 0xffffffff, p >> 32, i >> 32).decode("latin-1")
+
+
+def cap_text(eff, permitted, inheritable):
+    """getcap-style text: one `cap_name=[e][i][p]` item per capability present in either set, in bit order."""
+    out = []
+    for b in range(len(CAPS)):
+        fl = ("i" if b in inheritable else "") + ("p" if b in permitted else "")
+        if fl:
+            out.append("cap_%s=%s%s" % (CAPS[b], "e" if eff else "", fl))
+    return " ".join(out)
 
 
 def perm_expect(m):
@@ -54,12 +78,16 @@ class Check:
             "Non-trivial = a simulated answer or schedule actually reached fselect (overlay applied, short read fired, custom order delivered); distinct = distinct event-log signature.")
     assumptions = ["the answer sheet is what the simulator itself answered (overlay) or the real lstat of the materialised node",
                    "contains() is asserted for valid UTF-8 content only; symlinks are excluded from the content campaign",
-                   "pure decompositions are covered as a by-product only (name, is_hidden); capabilities/xattrs/configuration overrides are not covered"]
+                   "pure decompositions are covered as a by-product only (name, is_hidden); the xattr system calls are raw system calls (rustix) and do not pass the libc seam: has_xattrs/capabilities are checked against real tmpfs attributes, without fault injection"]
 
     # ------------------------------------------------------------------ generation
     def gen(self, rng, tier, index):
         if index < 7:
             return {"sub": "mode", "type": TYPES[index]}
+        if index == 7:
+            return {"sub": "xattr", "exhaustive": True}
+        if rng.random() < 0.08:
+            return self.gen_xattr(rng)
         if rng.random() < 0.5:
             return self.gen_meta(rng)
         return self.gen_content(rng, tier)
@@ -116,6 +144,34 @@ class Check:
             classes = {"is_archive": rng.sample([".zip", ".txt", ".gz", ".c", ".x1"], 2), "is_image": rng.sample([".jpg", ".md", ".o", ".py"], 2), "is_source": rng.sample([".rs", ".log", ".tar.gz", ".zip"], 2)}
         return {"sub": "meta", "world": world, "top": top, "plan": plan, "tz": rng.choice(["UTC", "Europe/Berlin", "America/New_York", "Asia/Kolkata"]),
                 "mode": rng.choice(["bfs", "dfs"]), "classes": classes}
+
+    def gen_xattr(self, rng):
+        top = rng.choice(gen.SAFE_ROOTS)
+        world = gen.gen_tree(rng, [top], max_entries=rng.choice([4, 10, 20]), max_depth=3, kinds={"file": 8, "dir": 3}, adversarial=0.1)
+        caps = {}
+        for n in world["nodes"]:
+            if n["path"] == top:
+                continue
+            r = rng.random()
+            xa = {}
+            if r < 0.35:
+                pass
+            elif r < 0.55:
+                xa["user." + rng.choice(["a", "comment", "security.capability"])] = rng.choice(["", "v", "\x00\x01"])
+            elif n["type"] == "file":
+                k = rng.choice([1, 1, 2, 3, 5, 41])
+                bits = rng.sample(range(41), k)
+                perm = [b for b in bits if rng.random() < 0.7]
+                inh = [b for b in bits if b not in perm or rng.random() < 0.4]
+                eff = rng.random() < 0.5
+                xa["security.capability"] = cap_blob(eff, perm, inh)
+                caps[n["path"]] = [eff, sorted(perm), sorted(inh)]
+                if rng.random() < 0.3:
+                    xa["user.also"] = "1"
+            if xa:
+                n["xattrs"] = xa
+        _, plan = gen.gen_env(rng, world)
+        return {"sub": "xattr", "world": world, "top": top, "plan": plan, "caps": caps, "mode": rng.choice(["bfs", "dfs"])}
 
     def gen_content(self, rng, tier):
         top = rng.choice(gen.SAFE_ROOTS)
@@ -209,7 +265,64 @@ class Check:
 
     # ------------------------------------------------------------------ evaluation
     def evaluate(self, case, ctx):
-        return {"mode": self.eval_mode, "meta": self.eval_meta, "content": self.eval_content}[case["sub"]](case, ctx)
+        return {"mode": self.eval_mode, "meta": self.eval_meta, "content": self.eval_content, "xattr": self.eval_xattr}[case["sub"]](case, ctx)
+
+    def eval_xattr(self, case, ctx):
+        """Extended attributes are real answers of the tmpfs world (the xattr system calls do not pass the libc seam); the open() in front of them does."""
+        if case.get("exhaustive"):
+            top = "xx"
+            nodes = [{"path": top, "type": "dir"}, {"path": top + "/plain", "type": "file", "content": "p"}, {"path": top + "/sub", "type": "dir"},
+                     {"path": top + "/userattr", "type": "file", "content": "", "xattrs": {"user.k": "v"}}, {"path": top + "/dirattr", "type": "dir", "xattrs": {"user.k": ""}}]
+            caps = {}
+            only = case.get("only")
+            for b in range(41):
+                for eff in (False, True):
+                    for fl in ("p", "i", "ip"):
+                        name = "%s/c%02d_%s%s" % (top, b, "e" if eff else "", fl)
+                        if only is not None and name != only:
+                            continue
+                        perm, inh = ([b] if "p" in fl else []), ([b] if "i" in fl else [])
+                        nodes.append({"path": name, "type": "file", "content": "x", "xattrs": {"security.capability": cap_blob(eff, perm, inh)}})
+                        caps[name] = [eff, perm, inh]
+            world = {"nodes": nodes}
+            plan = {"entropy": 7, "clock": [1700000000 * 10 ** 9, 0]}
+            mode = "bfs"
+        else:
+            world, top, plan, caps, mode = case["world"], case["top"], case["plan"], case["caps"], case["mode"]
+        nm = gen.node_map(world)
+        if top not in nm:
+            raise CaseInvalid("root missing")
+        caps = {k: v for k, v in caps.items() if k in nm and "security.capability" in nm[k].get("xattrs", {})}
+        cols = ["path", "has_xattrs", "capabilities"]
+        q = "select " + ", ".join(cols) + " from %s %s into list" % (top, mode)
+        with ctx.sandbox(world) as sb:
+            gen.validate_model(world, sb.root)
+            res = sb.run([q], plan=plan)
+            if res.sim or res.status != 0 or res.signal is not None:
+                return [Violation(PROP, "C04.xattr", ["C04.xattr", "abnormal_end", "-"], {"query": q, "outcome": res.summary()})]
+            rows = res.rows(len(cols))
+            want_paths = sorted(n["path"] for n in world["nodes"] if n["path"] != top)
+            if sorted(b2s(r[0]) for r in rows) != want_paths:
+                return [Violation(PROP, "C04.xattr", ["C04.xattr", "row_set", "-"], {"query": q, "rows": len(rows), "want": len(want_paths)})]
+            for row in rows:
+                path, has, cap = [b2s(x) for x in row]
+                real = os.listxattr(os.path.join(sb.root, path))
+                model = sorted(nm[path].get("xattrs", {}))
+                if sorted(real) != model:
+                    raise HarnessError("materialised xattrs differ from the model: %r vs %r" % (real, model))
+                w_has = "true" if model else "false"
+                if has != w_has:
+                    return [Violation(PROP, "C04.xattr", ["C04.xattr", "has_xattrs", nm[path]["type"]], {"query": q, "path": path, "got": has, "want": w_has, "xattrs": model, "only": path})]
+                w_cap = cap_text(*caps[path]) if path in caps else ""
+                if cap != w_cap:
+                    kind = "single" if case.get("exhaustive") else "set"
+                    return [Violation(PROP, "C04.xattr", ["C04.xattr", "capabilities", kind], {"query": q, "path": path, "got": cap, "want": w_cap, "caps": caps.get(path), "only": path})]
+                ctx.metric("xattr_rows_checked")
+                if path in caps:
+                    ctx.metric("capability_sets_checked")
+            if len(ctx.samples) < 3 and not case.get("exhaustive"):
+                ctx.samples.append({"argv": [q], "rows": len(rows), "files_with_capabilities": len(caps)})
+        return []
 
     def eval_mode(self, case, ctx):
         t = case["type"]
